@@ -853,8 +853,21 @@ impl PoolCase {
     }
 
     fn do_release(&mut self, j: usize, drop_it: bool) -> Vec<String> {
+        self.do_release_how(j, drop_it, false)
+    }
+
+    /// `unwinding`: the `ReadBuf` is a local of a frame that panics — its `Drop` runs while the
+    /// thread is unwinding (`std::thread::panicking()`), the panic is caught further up.
+    fn do_release_how(&mut self, j: usize, drop_it: bool, unwinding: bool) -> Vec<String> {
         let old_tail = self.tail();
-        if drop_it {
+        if drop_it && unwinding {
+            self.feats.push("readbuf-dropped-while-unwinding".into());
+            let s = std::mem::replace(&mut self.rbs[j], RbSlot::Gone);
+            let _ = util::catch(move || {
+                let _held = s_into(s);
+                panic!("a panic with a ReadBuf alive in the frame");
+            });
+        } else if drop_it {
             let s = std::mem::replace(&mut self.rbs[j], RbSlot::Gone);
             let _ = util::catch(move || drop(s_into(s)));
         } else if let RbSlot::Live(b) = &mut self.rbs[j] {
@@ -1572,7 +1585,7 @@ impl Case for PoolCase {
                 }
             }
             8 => format!("pool release {}", if !owning.is_empty() && rng.chance(4, 5) { *rng.pick(&owning) } else { *rng.pick(&live) }),
-            9 => format!("pool rbdrop {}", if !owning.is_empty() && rng.chance(4, 5) { *rng.pick(&owning) } else { *rng.pick(&live) }),
+            9 => format!("pool {} {}", if rng.chance(1, 4) { "rbdropp" } else { "rbdrop" }, if !owning.is_empty() && rng.chance(4, 5) { *rng.pick(&owning) } else { *rng.pick(&live) }),
             10 => {
                 // 1-3 distinct handles, mostly owning ones
                 let k = rng.range(1, 3) as usize;
@@ -1687,6 +1700,10 @@ impl Case for PoolCase {
             },
             ["pool", "rbdrop", j] => match parse_nat(j) {
                 Some(j) if j < self.rbs.len() && matches!(self.rbs[j], RbSlot::Live(_)) => self.do_release(j, true),
+                _ => vec!["bad-op".into()],
+            },
+            ["pool", "rbdropp", j] => match parse_nat(j) {
+                Some(j) if j < self.rbs.len() && matches!(self.rbs[j], RbSlot::Live(_)) => self.do_release_how(j, true, true),
                 _ => vec!["bad-op".into()],
             },
             ["pool", "prel", js] => {
